@@ -18,6 +18,8 @@ type Timer struct {
 	// an interval's "check stopped + re-arm".
 	mu      sync.Mutex
 	stopped bool
+	// interval timers keep one loop goroutine until they are stopped
+	interval bool
 }
 
 func (t *Timer) Refresh() *Timer {
@@ -26,8 +28,12 @@ func (t *Timer) Refresh() *Timer {
 
 	defer t.timer.Reset(t.sleep)
 
+	// An interval that was never cancelled still has its loop goroutine, also when that
+	// goroutine has just taken a tick and not re-armed the timer yet: a second loop
+	// would outlive the next cancel.
+	alive := t.interval && !t.stopped
 	t.stopped = false
-	if !t.timer.Stop() {
+	if !t.timer.Stop() && !alive {
 		go t.fn()
 	}
 
@@ -91,9 +97,10 @@ func (t *Timer) Stop() {
 
 func SetInterval(fn func(), sleep time.Duration) *Timer {
 	timer := &Timer{
-		timer:  time.NewTimer(sleep),
-		sleep:  sleep,
-		stopCh: make(chan struct{}),
+		timer:    time.NewTimer(sleep),
+		sleep:    sleep,
+		stopCh:   make(chan struct{}),
+		interval: true,
 	}
 	timer.fn = func() {
 		for {
